@@ -21,6 +21,7 @@ def obligations(tier):
     big = [s for s in fam if len(s["outcome"].nodes) >= 4][: (12 if tier == "quick" else 60)]
     o += tc.tree_obligations("tree_serialize_bounds_ptrcheck", big, {"P_SIZE": 1, "P_SIZE_EXACT": 1}, funcs=F, weight_cap=30, max_cases=2, ptrcheck=True, timeout=900,
                              desc="every n in 0..size+2 enumerated concretely, each in an exactly-sized heap block with CBMC pointer/bounds checks on: any write outside the first n bytes is a failed property, also on the failing (partial-write) paths")
+    o += tc.large_obligations("tree_size_serialize_alloc_large", {"P_SIZE": 1}, "tree", funcs=F, select=lambda s: len(s["outcome"].nodes) <= 60,  desc="large shapes: every n in 0..size+2 (symbolic)")
     return o
 
 
